@@ -2,6 +2,7 @@ import Feox.Proto.Dur
 import Feox.Proto.Disk
 import Feox.Proto.Shards
 import Feox.Proto.Txn
+import Feox.Proto.Slots
 import Feox.Props.C05Acc
 /-! Line-protocol front end for the `Proto` acceptors (trace validation). -/
 namespace Feox.Drv.ProtoDrv
@@ -38,6 +39,9 @@ active with these runs, or clear), `txn w <s> <e>` (data-area write of blocks `[
 structure TxnSt where
   st : Txn.St := { disk := fun _ => .zero }
   dead : Bool := false
+  /-- the slot that holds the newest journal record (none: nothing written yet) — `Proto.Slots`: the next
+  record must go to the other one, or a torn image of it sends recovery back to the record before -/
+  lastSlot : Option Nat := none
 
 def parseRuns (t : String) : Option Txn.Runs :=
   if t == "-" then some []
@@ -59,6 +63,23 @@ def handleTxn (s : TxnSt) (args : List String) : Option (TxnSt × String) :=
   | ["resume", runs] =>
     -- a store opened on an existing file: the durable journal is what the file holds
     (parseRuns runs).map fun j => ({ st := { disk := fun _ => .zero, jdur := j } }, "ok")
+  | ["resume", runs, slot] =>
+    match parseRuns runs, slot.toNat? with
+    | some j, some sl => some ({ st := { disk := fun _ => .zero, jdur := j }, lastSlot := some sl }, "ok")
+    | _, _ => none
+  | ["j", runs, slot] =>
+    -- a journal record written into slot `slot`
+    match parseRuns runs, slot.toNat? with
+    | some j, some sl =>
+      if s.dead then some (s, "ok")
+      else if s.lastSlot == some sl then
+        some ({ s with dead := true }, s!"reject (journal record written into slot {sl}, which holds the newest record: a torn image of it would make recovery fall back to the record before the durable one — Proto.Slots.same_slot_torn_goes_back)")
+      else match Txn.step? s.st (.journal j) with
+        | some st => some ({ s with st := st, lastSlot := some sl }, "ok")
+        | none =>
+          let why := s!"jdur={s.st.jdur} jpend={s.st.jpend} unsynced-data-writes={s.st.pend.length}"
+          some ({ s with dead := true }, s!"reject ({why})")
+    | _, _ => none
   | _ =>
     match ev with
     | none => none
